@@ -421,10 +421,21 @@ Definition st_add_mem_idx (s : state) (id : string) (fact : json) : state * opti
       end
   end.
 
-(** The cron add hook (cron/corehooks.go getSchedule): with hooks installed a
+(** The add hook: a validating hook of the harness (rejects facts marked "veto": true),
+    then the cron add hook (cron/corehooks.go getSchedule): with hooks installed a
     non-map rule or a non-string schedule is an error. *)
+Definition vetoed (fact : json) : bool :=
+  match jget "veto" fact with Some (JBool true) => true | _ => false end ||
+  match jget "rule" fact with
+  | Some (JObj r) => match alookup "veto" r with Some (JBool true) => true | _ => false end
+  | _ => false
+  end.
+
 Definition add_hook_err (s : state) (fact : json) : option string :=
   if negb (st_hooks s) then None else
+  (* the hooks of the harness: a validating hook that rejects what is marked "veto": true, then the cron
+     hook (sys.System installs the cron hook alone; its histories never carry a "veto" member) *)
+  if vetoed fact then Some "vetoed" else
   match jget "rule" fact with
   | None => None
   | Some (JObj r) =>
